@@ -1205,3 +1205,40 @@ Module InsertExamples.
     parse F1 false (insert_tok D1 5 (s "--num")) = Err ValueError.
   Proof. split; vm_compute; reflexivity. Qed.
 End InsertExamples.
+
+(* ================= 7. wf_line, conjunct by conjunct =================
+   wf_line = forms_ok (written forms) && texts_convert (every option text converts) && fits (the values fit in number
+   - shape - and convert) && req_ok.  Clause 5 breaks shape, clause 4 req_ok, clause 6 the conversions in fits or
+   texts_convert; forms_ok is kept throughout. *)
+From Coq Require Import Btauto.
+Definition ev_conv (e : opt * given) : bool :=
+  match snd e with
+  | GText s => res_ok (parse_typed (o_type (fst e)) (o_nullable (fst e)) (VStr s))
+  | _ => true
+  end.
+Definition texts_convert (d : ld) : bool := forallb ev_conv (events d).
+
+Lemma flags_conv fl : forallb ev_conv (map (fun o => (o, GTrue)) fl) = true.
+Proof. induction fl as [|o r IH]; [reflexivity|exact IH]. Qed.
+Lemma item_ok_split f g it : item_ok f g it = item_form f g it && forallb ev_conv (item_events it).
+Proof.
+  destruct it as [o long|o form s|o long|fl [[o gl]|]|s]; cbn [item_ok item_form item_events].
+  - cbn. btauto.
+  - unfold text_ok. cbn [forallb ev_conv fst snd]. destruct form; btauto.
+  - cbn. btauto.
+  - rewrite forallb_app, flags_conv. unfold last_ok, last_form, last_event, text_ok. cbn [fst snd].
+    destruct gl; cbn [forallb ev_conv fst snd]; btauto.
+  - rewrite app_nil_r, flags_conv. btauto.
+  - cbn. btauto.
+Qed.
+Lemma items_ok_split f g : forall l, items_ok f g l = items_form f g l && forallb ev_conv (flat_map item_events l).
+Proof.
+  induction l as [|it r IH]; [reflexivity|]. cbn [items_ok items_form flat_map]. rewrite forallb_app, IH, item_ok_split. btauto.
+Qed.
+Theorem wf_line_conjuncts f d :
+  wf_line f d = forms_ok f d && texts_convert d &&
+                fits (get_arguments_all f) (values d) && req_ok (get_arguments_all f) (values d).
+Proof.
+  unfold wf_line, forms_ok, texts_convert, events. destruct (aug_format f) as [[[g A] cns]|]; [|reflexivity].
+  rewrite items_ok_split. btauto.
+Qed.
